@@ -26,6 +26,20 @@ def build(ctx, tier, seed):
                 cases.append({'cmd': 'VP %s %x' % (hb, n), 'spec': 'SVP %s %x' % (hb, n), 'key': {'function': 'Avtp_Vss_Pad', 'len_mod_4': n % 4},
                               'n': n})
                 dist['pad:mod%d' % (n % 4)] = dist.get('pad:mod%d' % (n % 4), 0) + 1
+    # prior header states RELATED to the result: length / pad fields that already hold (or nearly hold) the values
+    # about to be written, over non-zero stale pad bytes (a "nothing to do" shortcut must still clear the pad)
+    from props import exlib
+    enc = exlib.Enc(ctx)
+    for n in (sorted(set(list(range(12, 30)) + [254, 255, 257, 1021, 1022, 1023, 2041, 2042, 2043])) if quick else range(12, 2045, 3)):
+        total = n + pad_of(n)
+        q = total // 4
+        for dq, dp in ((0, 0), (0, 1), (0, 2), (0, 3), (1, 0), (-1, 0)):
+            b = bytearray(x | 1 for x in rng.bytes(total + rng.choice([0, 5])))       # never-zero stale bytes
+            enc.put(b, 0, 'Vss', 'ACF_MSG_LENGTH', (q + dq) % 512)
+            enc.put(b, 0, 'Vss', 'PAD', (pad_of(n) + dp) % 4)
+            hb = F.hexbuf(bytes(b))
+            cases.append({'cmd': 'VP %s %x' % (hb, n), 'spec': 'SVP %s %x' % (hb, n), 'key': {'function': 'Avtp_Vss_Pad', 'len_mod_4': n % 4, 'prior': 'related'}, 'n': n})
+            dist['pad:prior-header-related'] = dist.get('pad:prior-header-related', 0) + 1
     # 32 KiB arena: a fill placed at 12*len instead of len lands inside and is seen as a changed byte
     for n in ([13, 14, 15, 101, 1022, 2043] if quick else list(range(13, 2045, 97))):
         b = rng.bytes(12) + bytes([0xa5]) * (32768 - 12)
